@@ -22,7 +22,7 @@ def step (st : St) (toks : List String) : St × String :=
   | "call" :: _ :: svc :: method :: _ :: vals =>
     match svcOf svc, vals.mapM parseBytes with
     | some svc, some vs =>
-      if admit st.tokens svc vs then (st, "pass")
+      if allowCall st.tokens svc vs then (st, "pass")
       else
         -- an unauthenticated call has no effect; the harness observes one for these methods
         let observed := (svc == .tables && (method == "create" || method == "delete")) ||
